@@ -164,6 +164,9 @@ func (p *parser) parseBinaryExpr(left Node) Node {
 	if expType == EMPTY_ARRAY {
 		binaryExp.T = binaryExp.Right.Type() // array concatenation e.g. [] + [1 2]
 	}
+	if binaryExp.T != nil {
+		binaryExp.T = fixedType(binaryExp.T)
+	}
 	p.validateBinaryType(binaryExp)
 	if p.isWSS() {
 		p.formatting.recordWSS(binaryExp)
@@ -216,9 +219,9 @@ func (p *parser) parseIndexOrSliceExpr(left Node, allowSlice bool) Node {
 		return nil
 	}
 	p.advanceWSS() // advance past ]
-	t := left.Type().Sub
-	if leftType == STRING {
-		t = STRING_TYPE
+	t := STRING_TYPE
+	if leftType != STRING {
+		t = fixedType(left.Type().Sub)
 	}
 	return &IndexExpression{token: tok, Left: left, Index: index, T: t}
 }
@@ -265,7 +268,7 @@ func (p *parser) parseSlice(tok *lexer.Token, left, start Node) Node {
 		return nil
 	}
 
-	return &SliceExpression{token: tok, Left: left, Start: start, End: end, T: left.Type()}
+	return &SliceExpression{token: tok, Left: left, Start: start, End: end, T: fixedType(left.Type())}
 }
 
 func (p *parser) parseDotExpr(left Node) Node {
@@ -289,7 +292,7 @@ func (p *parser) parseDotExpr(left Node) Node {
 		p.appendErrorForToken(`expected map key, found `+p.cur.TokenType().String(), tok)
 		return nil
 	}
-	expr := &DotExpression{token: tok, Left: left, T: left.Type().Sub, Key: key.Literal}
+	expr := &DotExpression{token: tok, Left: left, T: fixedType(left.Type().Sub), Key: key.Literal}
 	p.advance() // advance past key IDENT
 	return expr
 }
@@ -321,6 +324,9 @@ func (p *parser) parseTypeAssertion(left Node) Node {
 	}
 	if left.Type() != ANY_TYPE {
 		p.appendErrorForToken("value of type assertion must be of type any, not "+left.Type().String(), tok)
+	}
+	if t != nil {
+		t = fixedType(t)
 	}
 	return &TypeAssertion{T: t, token: tok, Left: left}
 }
